@@ -390,7 +390,7 @@ impl Property for C40Prop {
     fn budget(&self, tier: Tier) -> Budget {
         match tier {
             Tier::Quick => Budget { runs: 24_000, wall_cap_s: 35 },
-            Tier::Thorough => Budget { runs: 400_000, wall_cap_s: 360 },
+            Tier::Thorough => Budget { runs: 400_000, wall_cap_s: 330 },
         }
     }
     fn modes(&self) -> u32 {
